@@ -10,6 +10,8 @@ ID = 'C12'
 THEOREMS = CT.THEOREMS_C12 + [
     ('EAO.Properties.C19', 'EAO.C19.dt_real', 'each step length equals the real elapsed time to the next point in main time units, for any point list (DST, calendar months)'),
 ] + ST_.THEOREMS_C12_STORAGE + CH_.THEOREMS_C12_CHP
+from ..comp import linked as _LK
+THEOREMS = THEOREMS + [t for t in _LK.THEOREMS_LINKED if t[1].split('.')[-1] in ['linked_unit_change']]
 PARTIAL = ['unit_change is proved builder by builder: contract / transport / multi-commodity (rates not given as price keys), Storage (all options), CHP / Plant incl. ramp profiles, min-load costs and costs_only (rates not given as price keys; the constructor guard on declared histories must be stable under the change: it is evaluated on raw values, known finding F-06d); for price-key rates and for LinkedAsset the statement rests on the metamorphic oracles', 'the unit_change theorems are statements over exact rationals; that the floating-point arithmetic of the code (np.cumsum of step lengths against max_store_duration, ceil of duration / step) does not make the result depend on the unit is NOT proved: it rests on the stream non-dyadic unit change (durations in whole grid steps; findings F-12c, F-12d, F-12e were of this kind)']
 COMPONENTS = ['contract/transport builders under unit pairs (dt scaling)', 'independent reference LP (harness/comp/textbook.py) on zone-aware daily grids across daylight-saving switches: costs and limits billed by elapsed time']
 RULE = ('metamorphic: random small portfolios of contracts and transports re-expressed for another main time unit among h, d, min, s (rates scaled) and re-optimised on the real code: value and dispatched volumes equal; '
@@ -96,6 +98,11 @@ def scenarios(seed, tier):
     from ..comp import periodic as PE
     for i in range(n // 8):
         yield 'coarse%d' % i, {'stream': 'coarse-unequal', 'case': PE.gen_case(random.Random(rnd.getrandbits(48)), oracle=True, kind='freq', dst=True)}
+    # LinkedAsset (comp/linked.py): the model of the linking loop against the real set-up, on captured and on generated structured problems
+    from ..comp import linked as LK
+    _rl = random.Random(seed * 15485863 + 121)
+    for i in range(60 if tier == 'quick' else 400):
+        yield 'lk%d' % i, {'_stream': 'linked', 'case': LK.gen_case(_rl.__class__(_rl.getrandbits(48)), tmax=6)}
 
 
 def _split_cases(seed, n):
@@ -542,6 +549,11 @@ def run_nondyadic(c):
 
 
 def run_case(c, drv):
+    if isinstance(c, dict) and c.get('_stream') == 'linked':
+        from ..comp import linked as LK
+        r = LK.run_case(c['case'], drv, with_oracle=False)      # the tie of the linked model; its documented-behaviour oracle states no property of this list
+        r['features'] = ['stream:linked'] + list(r.get('features', []))
+        return r
     if c['stream'] == 'nondyadic':
         return run_nondyadic(c['case'])
     if c['stream'] == 'chp-unit':
